@@ -147,6 +147,18 @@ def ob_prefixes(a: int, b: int, c: int, d: int, pid: int) -> bool:
         t = E.masked_text(oo, pl)
         exp.append({'prefix': t, 'path_id': pid} if addpath else t)
     attrs = E.origin(0) + E.as_path([(2, [65001])], False) + E.next_hop([10, 0, 0, 1])
+    if P.get('where') == 'both':
+        # withdrawn routes, attributes and NLRI in the same UPDATE: the withdrawn list is the same prefixes rotated
+        wenc, wexp = b'', []
+        for i, pl in enumerate(plens):
+            oo = o[(i + 2) % 4:] + o[:(i + 2) % 4]
+            wenc += E.prefix(oo, pl, pid if addpath else None)
+            t = E.masked_text(oo, pl)
+            wexp.append({'prefix': t, 'path_id': pid} if addpath else t)
+        out = Update.parse(None, E.update_body(wenc, attrs, enc), False, {'ipv4': True} if addpath else {})
+        cover('parsed')
+        return out['sub_error'] is None and same(out['withdraw'], wexp) and same(out['nlri'], exp) and \
+            same(out['attr'], {1: 0, 2: [(2, [65001])], 3: '10.0.0.1'})
     if P.get('where') == 'withdraw':
         body = E.update_body(enc, b'', b'')
     else:
@@ -350,6 +362,11 @@ def obligations(tier, seed):
             out.append(ob('C09/prefix/%s/plen=%d' % (where, pl), 'ob_prefixes', {'plens': [pl], 'where': where}, covers=['parsed']))
     for pls in ([0, 32], [7, 9, 17], [32, 1, 0], [24, 24, 25]):
         out.append(ob('C09/prefix/list=%s' % '-'.join(map(str, pls)), 'ob_prefixes', {'plens': pls, 'where': 'nlri'}, covers=['parsed']))
+    for pls in ([24], [0, 9], [17, 32]):
+        out.append(ob('C09/prefix/both-fields/list=%s' % '-'.join(map(str, pls)), 'ob_prefixes', {'plens': pls, 'where': 'both'},
+                      covers=['parsed']))
+        out.append(ob('C09/addpath/both-fields/list=%s' % '-'.join(map(str, pls)), 'ob_prefixes',
+                      {'plens': pls, 'where': 'both', 'addpath': True}, covers=['parsed']))
     for pls in ([24], [0], [17, 32], [9, 1, 30]):
         for where in ('nlri', 'withdraw'):
             out.append(ob('C09/addpath/%s/list=%s' % (where, '-'.join(map(str, pls))), 'ob_prefixes',
